@@ -81,7 +81,7 @@ Print Assumptions C04_norm_int_meaning.
 
 (* enums as root schemas: description, prefix, option names (short), numbers
    (UNSPECIFIED = 0, the others 1..n in order) and option descriptions *)
-Theorem C04_enum : forall e, unspec_ok e = true -> read_enum (write_enum e) = Ok (norm_enum e).
+Theorem C04_enum : forall e, enum_rt e = true -> read_enum (write_enum e) = Ok (norm_enum e).
 Proof. exact c04_enum. Qed.
 Print Assumptions C04_enum.
 
